@@ -24,7 +24,9 @@ LEVEL_TEXT = ("Lean 4 theorems, for all networks (any number of points and clust
               "gkfparser.cpp / network.cpp / observation.cpp / lcoords.h on every run; the model is run against the real parser + "
               "export writer on generated whole documents (two rounds). Output in degrees (sexagesimal values, standard deviations and "
               "covariance rows in seconds) is proved like gons; the hypothesis Net.WF is decidable and evaluated by the driver on every "
-              "document; what the parser establishes of it is proved (parameter guards, point ids, covariance shape). Adjustment clauses: "
+              "document; what the parser establishes of it is proved (parameter guards, point ids, covariance shape); a <point> inside <coordinates> keeps the "
+              "coordinates the point already has, so the re-import keeps the exported coordinates (C13_reimport_keeps_adjusted_coordinates; "
+              "finding C13 coords-point FIXED by /repo 6848bc2a, guards regenerated). Adjustment clauses: "
               "theorems on the regenerated refine_approx_coordinates / refine_adjustment sites (the exported coordinates are those of "
               "the last linearisation = adjusted coordinates of the pass before; a converged run re-adjusts with zero iterations and "
               "the same results, for every adjustment that is a function of the network). Round 9 (Props/C13Rerun.lean): the same with the "
@@ -35,7 +37,8 @@ LEVEL_TEXT = ("Lean 4 theorems, for all networks (any number of points and clust
               "zero iterations and reports the same adjustment, for k rounds; (parse o export)^k = parse o export. "
               "Props/C13Removed.lean: finding F29 characterised (the abs-term stage of the re-run reproduces the active flags iff "
               "the test's verdict at the exported coordinates equals the one at the given coordinates; NEG witness = the corpus "
-              "reproducer's observation with C14's regenerated test over Q). The adjustment itself explored end-to-end.")
+              "reproducer's observation with C14's regenerated test over Q; F29 stays a KNOWN finding, F30 is fixed by /repo 281bcf7). "
+              "The re-adjustment under the real (lossy) printer and the hand-over document -> PD/OD are explored end-to-end only.")
 LEVEL_NOTE = ("Numbers are abstract in Props/C13.lean: exact law on the representable numbers, or Codec.PrinterOn D (rd (fmt x) = q x, "
               "fmt (q x) = fmt x, sign symmetric, non-zero never printed as zero; the same for the <cov-mat> elements with their own "
               "printer fmtCov / quantisation qc; the two laws of the sexagesimal text on a domain D of angular values) with a "
@@ -43,19 +46,28 @@ LEVEL_NOTE = ("Numbers are abstract in Props/C13.lean: exact law on the represen
               "%.{p}g (to_xmlstr; p = 8 / 16 / 17 by site, one p in the network model) / %.16e (updated_xml_covmat) / IsFloat+atof and "
               "gon2deg(.,0,4) / deg2gon (C18's models; D: 0 <= g, g*0.9 < 2^31-1) and instantiates round trip and fixed point for "
               "angles=400 and angles=360; the format at every number-printing site of the writer is regenerated "
-              "(Gen/GkfFmtSites.lean) and compared with the instantiated ones (C13_number_sites_formats). Trusted: Lean kernel, Props/C13.lean, tools/gen/c13_attrs.py, "
-              "tools/gen/c13_doc.py, harness, generators.")
+              "(Gen/GkfFmtSites.lean) and compared with the instantiated ones (C13_number_sites_formats). Trusted: Lean kernel, statements in Props/C13*.lean, tools/gen/c13_attrs.py, "
+              "tools/gen/c13_doc.py, harness, generators; hand models: Model/ExportRemoved.lean (abs-term stage / export / re-run, tied "
+              "by four regenerated call-site constants), Loader / Describes of Props/C13Rerun.lean (not modelled).")
 TECHNIQUE = "Lean 4 proof (case analysis over record types, induction over lists) + translators for the parser tables and the writer sites + correspondence + end-to-end oracle"
 TRUSTED = ["tools/gen/c13_attrs.py (regex translator: attribute name -> local variable -> toDouble target -> setter/ctor argument "
            "for every GKFparser::process_*)",
            "tools/gen/c13_doc.py (regex translator: process_point/parameters/network tables, export_xml writer sites, status chains, "
-           "y_sign sites, updated_xml_covmat call flags, the ostream format at every number-printing site; deviations from the "
-           "modelled shape raise TieBroken)"]
+           "y_sign sites, updated_xml_covmat call flags, the ostream format at every number-printing site; the process_point guards of 6848bc2a; round 9: the order of "
+           "the stages in src/gama-local.cpp - Acord2, one refine_obsdh_reductions, one remove_huge_abs_terms, one refine_adjustment, "
+           "one export_xml - and whether export_xml / the parser consult an observation's active flag, as Booleans; deviations "
+           "from the modelled shape raise TieBroken)",
+           "translators of other properties run by translate(): c18_ellipsoids.py (gon2deg variant), c05_linearization.py, "
+           "c06_testlin.py (tests of refine_adjustment, TestLinearizationVisitor, refine_obsdh_reductions), c14_revision.py "
+           "(test_abs_term) - see C18 / C05 / C06 / C14"]
 MODELLED = ["number formatting/parsing (to_xmlstr, setprecision, updated_xml_covmat's scientific/precision(16), toDouble): Codec "
             "hypotheses, instantiated over Q (Props/C13Codec.lean); explored end-to-end",
             "PointData order (std::map) : the model keeps insertion order; <cov-mat> inside <obs>/<height-differences> replacing the "
             "stdev attributes: the model keeps the attribute (equal for consistent documents)",
-            "Acord2 / linearisation / adjustment between parse and export (C06, C01): explored end-to-end only",
+            "between parse and export: the loop of refine_adjustment, project_equations and the solver are the models of C06 / C05 / "
+            "C01 (Props/C13Rerun.lean, exact codec); Acord2 and how the parsed document becomes PD / OD (Loader), "
+            "refine_approx_coordinates inside the loop (parameter ra) and the whole chain under the real printer: explored "
+            "end-to-end only",
             "text layout of the exported file, expat, str2xml escaping (C12)"]
 ASSUMPTIONS = ["Codec.LawfulOn R / Codec.PrinterOn D q qc qd for the numbers written by export_xml: proved over Q for the real printers "
                "(Props/C13Codec.lean: C13_real_codec_printer; <cov-mat> elements %.16e, all to_xmlstr sites one %.{p}g with p a "
@@ -558,6 +570,18 @@ def diagnose(gdir, wd, idx, g, results, k):
         back = [r for r in rem0 if r not in remk]
         out.append(f"r0 removed {len(rem0)} observation(s) for an outlying absolute term, r{k} removed {len(remk)}; "
                    f"removed in r0 and active in r{k}: {back[:3]}")
+        # round 9 (Props/C13Removed.lean, `C13_export_forgets_removed` + `nActive`): the export gives every observation back, so
+        # the equations of rk are those of r0 plus what r0's abs-term stage removed minus what rk's removes
+        try:
+            e0, ek = int(float(results[0].get("equations"))), int(float(results[k].get("equations")))
+            pred = e0 + len(rem0) - len(remk)
+            # (the revision that follows — single-direction rule, points left without observations — is monotone: an
+            # observation that comes back can bring others with it, e.g. the second direction of a stand-point and its
+            # orientation unknown; so rk may have MORE than the prediction, never fewer)
+            out.append(f"abs-term accounting: equations r0 + removed r0 - removed r{k} = {pred}, r{k} has {ek}" +
+                       ("" if pred <= ek else " [NOT explained by the abs-term stage]"))
+        except (TypeError, ValueError):
+            pass
     far = 0.0
     for (pid, c), v in results[0]["adj"].items():
         a = g[0]["points"].get(pid, {}).get(c)
@@ -1503,7 +1527,8 @@ def classify(ctx, f):
         m = re.search(r"r0 vs r\d: equations ([0-9.]+) vs ([0-9.]+)", d)
         mr = re.search(r"removed in r0 and active in r\d: \[(.*?)\]", d)
         mf = re.search(r"given approximate coordinates up to ([0-9.]+) m", d)
-        if m and float(m.group(2)) > float(m.group(1)) and mr and mr.group(1).strip() and mf and float(mf.group(1)) > 0.05:
+        if m and float(m.group(2)) > float(m.group(1)) and mr and mr.group(1).strip() and mf and float(mf.group(1)) > 0.05 \
+                and "[NOT explained by the abs-term stage]" not in d:
             return "F29"
         # F30: a run with >= 1 iteration whose [pvv] differs from the fresh adjustment of its own export while PointData and
         # the equations agree
